@@ -1,6 +1,7 @@
 import FFS.Driver.Rlp
 import FFS.Driver.Secp
 import FFS.Driver.Tx
+import FFS.Driver.Eth
 open Lean FFS FFS.Driver
 
 def dispatch (op : String) (j : Json) : Json :=
@@ -17,6 +18,10 @@ def dispatch (op : String) (j : Json) : Json :=
   | "tx.sign" => opTxSign j
   | "tx.recover" => opTxRecover j
   | "tx.decode1559" => opTxDecode1559 j
+  | "eth.bigint" => opEthBigInt j
+  | "eth.hexint" => opEthHexInt j
+  | "eth.addr" => opEthAddr j
+  | "eth.hexbytes" => opEthHexBytes j
   | _ => Json.mkObj [("bad", "op")]
 
 partial def loop (hin : IO.FS.Stream) (hout : IO.FS.Stream) : IO Unit := do
